@@ -191,6 +191,10 @@ def strategy(tier):
         'batch': st.lists(st.fixed_dictionaries({'l': st.integers(2, 7 if tier == 'thorough' else 6),
                                                  'log_ml': st.floats(-2.0, 3.0), 'log_wtau': st.floats(-3.0, 4.0),
                                                  'log_freq': st.floats(-7.0, -3.0)}), min_size=1, max_size=3),
+        'stack': st.one_of(st.none(), st.fixed_dictionaries({
+            'bottom': st.sampled_from(BOTTOM_FLAGS),
+            'upper': st.lists(st.tuples(st.floats(0.35, 0.9), st.booleans(), st.booleans()).map(list), min_size=0, max_size=2),
+            'log_K_incomp': st.floats(9.0, 12.0)})),
         'r0_frac': st.floats(0.05, 0.3), 'slices': st.integers(20, 80), 'log_K_factor': st.floats(5.0, 7.0)})
     quick = tc.tide_case_strategy(tier, kinds=('single',), finding_weight=0.25).map(lambda c: dict(c, kind='quick'))
     kinds = [formula, quick, solver]
@@ -233,6 +237,11 @@ def in_domain(case):
                 and mat['rheology'] in SOLVER_RHEOS and len(case['pts']) == 1 and 0.05 <= case['r0_frac'] <= 0.3 \
                 and 20 <= case['slices'] <= 80 and 5.0 <= case['log_K_factor'] <= 7.0
             rng = ((-2.0, 3.0), (-3.0, 4.0), (-7.0, -3.0))
+        if case['kind'] == 'solver' and case.get('stack'):
+            sk = case['stack']
+            ok = ok and list(sk['bottom']) in BOTTOM_FLAGS and 0 <= len(sk['upper']) <= 2 and 9.0 <= sk['log_K_incomp'] <= 12.0
+            for u in sk['upper']:
+                ok = ok and 0.35 <= u[0] <= 0.9 and isinstance(u[1], bool) and isinstance(u[2], bool)
         if case['kind'] == 'solver' and 'batch' in case:
             ok = ok and 1 <= len(case['batch']) <= 3
             for p in case['batch']:
@@ -435,16 +444,49 @@ def _evaluate_quick(case):
 # ---- layered radial solver ---------------------------------------------------------------------------
 
 
-def _rs_solve(l, R, rho, mu_c, K, freq, r0_frac, slices, rtol):
-    """One radial_solver call.  Returns the solution OBJECT (kept alive by the caller), the Love-number arrays read from
+BOTTOM_FLAGS = [[True, False], [False, False], [False, True]]    # (static, incompressible) combinations with Kamata starting conditions
+IFACE_EPS = 1.0e-13
+W2_DYNAMIC = 1.0e-7        # w^2 R / g used for the solver's forcing frequency when a layer is dynamic (quasi-static)
+
+
+def _stack_layers(case):
+    """[(top fraction of R, static, incompressible)] bottom to top; one static compressible layer when the case has no stack."""
+    st_ = case.get('stack')
+    if not st_:
+        return [(1.0, True, False)]
+    upper = sorted(([min(0.9, max(0.35, float(u[0]))), bool(u[1]), bool(u[2])] for u in st_.get('upper', [])), key=lambda u: u[0])
+    if len(upper) == 2 and upper[1][0] - upper[0][0] < 0.05:
+        upper[1][0] = upper[0][0] + 0.05
+    flags = [(bool(st_['bottom'][0]), bool(st_['bottom'][1]))] + [(u[1], u[2]) for u in upper]
+    tops = [u[0] for u in upper] + [1.0]
+    return [(tops[i], flags[i][0], flags[i][1]) for i in range(len(flags))]
+
+
+def _rs_solve(l, R, rho, mu_c, K, freq, r0_frac, slices, rtol, layers=((1.0, True, False),), K_incomp=None):
+    """One radial_solver call on the uniform body, given as a stack of `layers` of IDENTICAL material (top fraction, static,
+    incompressible); every interface is sampled on both sides (last slice of the lower layer at r_i, first slice of the upper
+    layer at r_i (1 + 1e-13)) because the solver starts an upper layer at that layer's first slice.  Layers flagged
+    incompressible get the finite bulk modulus `K_incomp` (documented as ignored), the others the compressible-limit `K`.
+    Returns the solution OBJECT (kept alive by the caller), the Love-number arrays read from
     it right now (views into the solution, also kept) and python-complex copies of k, h, l taken right now."""
     from TidalPy.RadialSolver import radial_solver
-    r = np.linspace(r0_frac * R, R, slices)
-    dens = rho * np.ones(slices)
+    n_each = max(8, int(slices) // len(layers))
+    parts, bulk_parts, prev = [], [], r0_frac * R
+    for i, (top, static, incomp) in enumerate(layers):
+        lo = prev if i == 0 else prev * (1.0 + IFACE_EPS)
+        parts.append(np.linspace(lo, top * R, n_each))
+        bulk_parts.append(np.full(n_each, float(K_incomp if (incomp and K_incomp is not None) else K)))
+        prev = top * R
+    r = np.ascontiguousarray(np.concatenate(parts))
+    r[-1] = R
+    n_tot = r.size
+    dens = rho * np.ones(n_tot)
     grav = 4.0 * math.pi * tc.G_SI * rho * r / 3.0
-    bulk = K * np.ones(slices, dtype=np.float64)
-    shear = mu_c * np.ones(slices, dtype=np.complex128)
-    out = radial_solver(r, dens, grav, bulk, shear, freq, rho, ('solid',), (True,), (False,), (R,),
+    bulk = np.ascontiguousarray(np.concatenate(bulk_parts))
+    shear = mu_c * np.ones(n_tot, dtype=np.complex128)
+    tops = tuple(float(top * R) for top, _, _ in layers[:-1]) + (float(R),)
+    out = radial_solver(r, dens, grav, bulk, shear, freq, rho, tuple('solid' for _ in layers),
+                        tuple(bool(x[1]) for x in layers), tuple(bool(x[2]) for x in layers), tops,
                         degree_l=l, solve_for=('tidal',), use_kamata=True, integration_method='dop853',
                         integration_rtol=rtol, integration_atol=rtol * 1e-4, scale_rtols_by_layer_type=False,
                         max_num_steps=300_000, expected_size=250, max_step=0, limit_solution_to_radius=True,
@@ -484,7 +526,13 @@ def _evaluate_solver(case):
     g = 4.0 * math.pi * tc.G_SI * rho * R / 3.0
     rh = case['material']['rheology']
     members = _solver_members(case)
-    labels = ['kind:solver', 'rheo:' + rh, 'scalar', 'solver:batch%d' % len(members)]
+    layers = _stack_layers(case)
+    K_incomp = 10.0 ** float((case.get('stack') or {}).get('log_K_incomp', 11.0))
+    any_dynamic = any(not x[1] for x in layers)
+    labels = ['kind:solver', 'rheo:' + rh, 'scalar', 'solver:batch%d' % len(members), 'solver:layers%d' % len(layers),
+              'bottom:%s_%s' % ('static' if layers[0][1] else 'dynamic', 'incomp' if layers[0][2] else 'comp')]
+    for x in layers[1:]:
+        labels.append('upper:%s_%s' % ('static' if x[1] else 'dynamic', 'incomp' if x[2] else 'comp'))
     prepared = []
     for l, pt in members:
         sub = dict(case, l=l, pts=[pt])
@@ -494,7 +542,10 @@ def _evaluate_solver(case):
             continue
         mu_c = 1.0 / Jj
         K = 10.0 ** case['log_K_factor'] * max(abs(mu_c), rho * g * R)
-        prepared.append({'l': l, 'mu': mj, 'J': Jj, 'mu_c': mu_c, 'K': K, 'freq': 10.0 ** pt['log_freq']})
+        # the solver's forcing frequency only enters the inertia terms of dynamic layers (mu~ is passed directly): with a
+        # dynamic layer it is set to the quasi-static w^2 R/g = 1e-7, else the member's own frequency is passed (unused)
+        freq = math.sqrt(W2_DYNAMIC * g / R) if any_dynamic else 10.0 ** pt['log_freq']
+        prepared.append({'l': l, 'mu': mj, 'J': Jj, 'mu_c': mu_c, 'K': K, 'freq': freq})
         labels.append('l:%d' % l)
     labels = list(dict.fromkeys(labels))
     if not prepared:
@@ -502,8 +553,10 @@ def _evaluate_solver(case):
     # ---- solve the whole batch first, keep everything alive -------------------------------------------------------------
     with repo_call('radial_solver'):
         for m in prepared:
-            m['coarse'] = _rs_solve(m['l'], R, rho, m['mu_c'], m['K'], m['freq'], case['r0_frac'], int(case['slices']), 1e-7)
-            m['fine'] = _rs_solve(m['l'], R, rho, m['mu_c'], m['K'], m['freq'], case['r0_frac'], int(case['slices']), 1e-9)
+            m['coarse'] = _rs_solve(m['l'], R, rho, m['mu_c'], m['K'], m['freq'], case['r0_frac'], int(case['slices']), 1e-7,
+                                    layers, K_incomp)
+            m['fine'] = _rs_solve(m['l'], R, rho, m['mu_c'], m['K'], m['freq'], case['r0_frac'], int(case['slices']), 1e-9,
+                                  layers, K_incomp)
     # ---- only now read them back and judge ----------------------------------------------------------------------------------
     c = Collector(labels=labels)
     nontrivial = False
@@ -540,9 +593,13 @@ def _evaluate_solver(case):
         zabs = abs(eff / (m['J'] * m['mu']))
         c.label('regime:stiff' if zabs > 10 else ('regime:soft' if zabs < 0.1 else 'regime:mid'))
         nontrivial = nontrivial or (0.01 < zabs < 100.0)
-        tol = 1e-6 + 50.0 * delta + 3.0 * (abs(m['mu_c']) + rho * g * R) / m['K']
+        # compressibility correction only from layers NOT flagged incompressible (they carry the compressible-limit K); the
+        # finite K of layers flagged incompressible is documented as ignored and gets no allowance
+        comp_term = 3.0 * (abs(m['mu_c']) + rho * g * R) / m['K'] if any(not x[2] for x in layers) else 0.0
+        tol = 1e-6 + 50.0 * delta + comp_term + (30.0 * W2_DYNAMIC if any_dynamic else 0.0)
         err = abs(k2 - k_closed)
         c.check(err <= tol, {'clause': 'solver', 'what': 'k_l'},
+                'layers (top/R, static, incompressible)=%r K_incomp=%.3g: ' % (layers, K_incomp) +
                 'batch member %d of %d: l=%d R=%r rho=%r mu~=%r K=%r: stored radial_solver solution reports k=%r (coarse solve %r), '
                 'closed-form helper k=%r, |diff|=%.3e tol=%.3e (delta=%.1e)'
                 % (i + 1, len(prepared), l, R, rho, m['mu_c'], m['K'], k2, k1, k_closed, err, tol, delta))
